@@ -147,7 +147,7 @@ fn file_case(report: &Report, rt: &tokio::runtime::Runtime, seed: u64, i: u64, c
                 // of an array whose nulls are elsewhere) and the page is written full-zip
                 let all_valid_buffer = batches.iter().any(|b| b.column(0).nulls().map(|n| n.null_count() == 0).unwrap_or(false));
                 let cls = crate::quiet::failure_class(&e);
-                let sig = if all_valid_buffer && cls == "panic-repdef.rs-called-option-unwrap-on-a-none-value" {
+                let sig = if all_valid_buffer && (cls == "panic-repdef.rs-called-option-unwrap-on-a-none-value" || cls.starts_with("panic-primitive.rs-range-")) {
                     "file-error-fullzip-validity-buffer-without-nulls-panic".to_string()
                 } else {
                     format!("file-error-{cls}-{forced}-{}", type_family(arr.data_type()))
